@@ -267,8 +267,10 @@ pub fn c01_eval(h: &[Op], only_depths: Option<&[i64]>, with_ext: bool, dist: Opt
                         fs.push(f);
                     }
                 }
-                // the instance already is not what a fresh twin would be: whatever a further reorg shows is derivative
-                return fs;
+                // state, blocks or transactions already differ from the twin: whatever a further reorg shows is
+                // derivative. Stale trace rows alone cannot influence anything later (they are only ever read
+                // back): those queries are left out and the sweep goes on.
+                if d.iter().any(|x| !is_trace_method(&x.0)) { return fs; }
             }
         } else { fs.extend(fatal_finding("c01:twin", &b)); return fs; }
     }
@@ -462,8 +464,9 @@ pub fn c03_loss_eval(h: &[Op], seed: u64, dist: Option<&mut Dist>) -> Vec<Findin
     let lose = if rng.chance(1, 2) { Op::Clear } else { Op::Reopen };
     let mut l = Run::new();
     if !l.run(&hs[..cut]) { fs.extend(fatal_finding("c03", &l)); return fs; }
+    // a rejected call that changed the store (C05's subject) leaves a state the answers do not describe
+    if l.tracker.desynced { return fs; }
     let mid_block = !l.tracker.at_boundary();
-    if mid_block && matches!(lose, Op::Reopen) { /* a reopen mid-block is a crash of the indexer connection: also legal */ }
     if l.step(&lose).status.is_fatal() { fs.extend(fatal_finding("c03", &l)); return fs; }
     let eff = l.tracker.effective_history(&l.log, None);
     let mut p = Run::new();
@@ -527,6 +530,9 @@ pub fn c05_eval(hm: &[Op], injected: &[Injected], dist: Option<&mut Dist>) -> Ve
             }
         }
         if !out.status.is_rejected() || Tracker::effective(&resolved, &out) { keep.push(i); }
+        // from here on the answers no longer describe the engine (a block is open that no receipt told of):
+        // what follows would only be consequences; the erasure comparison below shows the effect itself
+        if r1.tracker.desynced { break; }
     }
     if r1.tracker.fatal { if let Some(d) = dist { d.absorb(&r1); for i in injected { bump(&mut d.injected_kinds, i.kind); } } return fs; }
     // the same history without the rejected calls (with the indexes the first run used)
@@ -591,7 +597,7 @@ pub fn coherence(run: &mut Run) -> Vec<Finding> {
     let mut bad = |sig: &str, what: String, fd: Value| { if fs.len() < 12 && !fs.iter().any(|f: &Finding| f.signature == format!("c06:{}", sig)) { fs.push(finding(format!("c06:{}", sig), what, fd)); } };
     let blocks = run.tracker.blocks.clone();
     let inst = &mut run.inst;
-    let mut q = |inst: &mut Inst, m: &str, p: Value| -> Value { match inst.rpc(m, p) { Ok(v) => canon(&v), Err(RpcFail::Err { message, .. }) => json!({"error": message}), Err(RpcFail::Panic(m)) => json!({"PANIC": m}), Err(RpcFail::Hang) => json!({"HANG": true}) } };
+    let q = |inst: &mut Inst, m: &str, p: Value| -> Value { match inst.rpc(m, p) { Ok(v) => canon(&v), Err(RpcFail::Err { message, .. }) => json!({"error": message}), Err(RpcFail::Panic(m)) => json!({"PANIC": m}), Err(RpcFail::Hang) => json!({"HANG": true}) } };
     let top = blocks.len() as u64;
     let bn = q(inst, "eth_blockNumber", json!([]));
     if !blocks.is_empty() && bn != json!(format!("0x{:x}", top - 1)) { bad("height", format!("eth_blockNumber answers {} after {} blocks were finalised", bn, top), json!({"eth_blockNumber": bn, "expected": top - 1})); }
@@ -1005,7 +1011,7 @@ fn worker(prop: &str, shard: u64, out: &Path, seed: u64, thorough: bool) -> Resu
     let t0 = Instant::now();
     let soft = if thorough { Duration::from_secs(480) } else { Duration::from_secs(50) };
     let hard = if thorough { Duration::from_secs(600) } else { Duration::from_secs(80) };
-    let iters: u64 = match (prop, thorough) { ("c01", false) => 8, ("c01", true) => 90, ("c03", false) => 8, ("c03", true) => 90, ("c10", false) => 50, ("c10", true) => 600, ("c06", false) => 70, ("c06", true) => 800, (_, false) => 45, (_, true) => 500 };
+    let iters: u64 = match (prop, thorough) { ("c01", false) => 8, ("c01", true) => 90, ("c03", false) => 8, ("c03", true) => 60, ("c10", false) => 50, ("c10", true) => 600, ("c06", false) => 70, ("c06", true) => 800, (_, false) => 45, (_, true) => 500 };
     let mut rng = Rng::new(seed ^ prop_salt(prop) ^ (shard.wrapping_mul(0x9E37_79B9)));
     let mut col = Collector { failures: BTreeMap::new(), evaluations: 0 };
     let mut dist = Dist::default();
@@ -1211,7 +1217,84 @@ fn probe(args: &[String], seed: u64) -> Result<(), Box<dyn std::error::Error>> {
                 for f in fs { println!("   {} :: {}\n        {}", f.signature, f.what, short(&f.first_difference)); }
             }
         }
-        _ => return Err("simprobe --what gen|corpus|c01|c03|c05|c06|c10".into()),
+        "contracts" => {
+            // self-test of the hand-assembled contracts: every action, checked through the RPC surface
+            use alloy::primitives::U256;
+            let mut run = Run::new();
+            let ts = TS0 + 1;
+            let mut k = 0;
+            let mut call = |run: &mut Run, data: Vec<u8>, bl: u64| -> Value {
+                k += 1;
+                let op = Op::Call { from_pkscript: PKSCRIPTS[0].into(), to: To::ByInscription("tooli0".into()), data: Hx(data), enc: Enc::Base64, tail: t_tail(ts, &format!("c{}i0", k), bl) };
+                run.step(&op).result.clone()
+            };
+            run.step(&t_init());
+            let dep = run.step(&Op::Deploy { from_pkscript: PKSCRIPTS[0].into(), data: Hx(multitool_init()), enc: Enc::Base64Packed, tail: t_tail(ts, "tooli0", 2000) }).result.clone();
+            let tool = dep["contractAddress"].as_str().unwrap_or("").to_string();
+            let tool_addr = Hx::from_hex(&tool).to_address();
+            println!("deploy status {} tool {} gas {}", dep["status"], tool, dep["gasUsed"]);
+            let predicted = format!("0x{}", hex::encode(pkscript_address(PKSCRIPTS[0]).create(0)));
+            println!("predicted address {} {}", predicted, if predicted == tool { "ok" } else { "MISMATCH" });
+            let r = call(&mut run, cd::sstore(U256::from(7), U256::from(99)), 2000); println!("sstore status {}", r["status"]);
+            let r = call(&mut run, cd::log(&[U256::from(70), U256::from(71), U256::from(72)], U256::from(5)), 2000); println!("log3 status {} topics {} data {}", r["status"], r["logs"][0]["topics"], r["logs"][0]["data"]);
+            let r = call(&mut run, cd::log(&[], U256::from(6)), 2000); println!("log0 status {} logs {}", r["status"], r["logs"].as_array().map(|a| a.len()).unwrap_or(0));
+            let r = call(&mut run, cd::revert(), 2000); println!("revert status {}", r["status"]);
+            let r = call(&mut run, cd::spin(), 100); println!("spin status {} gasUsed {}", r["status"], r["gasUsed"]);
+            let r = call(&mut run, cd::create(), 2000); println!("create status {}", r["status"]);
+            let r = call(&mut run, cd::context(), 2000); println!("context status {} gasUsed {}", r["status"], r["gasUsed"]);
+            let r = call(&mut run, cd::call(tool_addr, &cd::sstore(U256::from(8), U256::from(55))), 2000); println!("call->sstore status {}", r["status"]);
+            let r = call(&mut run, cd::call(tool_addr, &cd::revert()), 2000); println!("call->revert status {} (bubbled)", r["status"]);
+            let r = call(&mut run, cd::selfdestruct(), 2000); println!("selfdestruct status {}", r["status"]);
+            run.step(&t_fin(ts));
+            let mut slot = |run: &mut Run, k: u64| run.inst.rpc("eth_getStorageAt", json!([tool, format!("0x{:x}", k)])).unwrap_or(json!("err"));
+            println!("slot 7 = {}", slot(&mut run, 7));
+            println!("slot 8 = {}", slot(&mut run, 8));
+            let child = slot(&mut run, SLOT_CHILD);
+            println!("child (slot 0xc0) = {}; expected {}", child, hex::encode(tool_addr.create(1)));
+            let child_addr = format!("0x{}", &child.as_str().unwrap_or("")[26..]);
+            println!("child code = {}", run.inst.rpc("eth_getCode", json!([child_addr])).unwrap_or(json!("err")));
+            let names = ["NUMBER", "TIMESTAMP", "PREVRANDAO", "CHAINID", "BASEFEE", "GASPRICE", "COINBASE", "CALLER", "ORIGIN", "BLOCKHASH(n-1)", "BLOCKHASH(n-2)", "op_return_tx_id"];
+            for (i, n) in names.iter().enumerate() { println!("ctx {:<16} = {}", n, slot(&mut run, SLOT_CTX + i as u64)); }
+            let r = run.inst.rpc("eth_call", json!([{"to": tool, "data": format!("0x{}", hex::encode(cd::sload(U256::from(7))))}, null]));
+            println!("eth_call sload(7) = {:?}", r);
+            let r = run.inst.rpc("eth_call", json!([{"to": child_addr, "data": "0x"}, null]));
+            println!("eth_call child = {:?}", r);
+            println!("code after selfdestruct (kept since Cancun) len = {}", run.inst.rpc("eth_getCode", json!([tool])).ok().and_then(|v| v.as_str().map(|s| s.len())).unwrap_or(0));
+            println!("reverting init: {}", run.step(&Op::Deploy { from_pkscript: PKSCRIPTS[1].into(), data: Hx(init_reverting()), enc: Enc::Hex, tail: t_tail(ts + 1, "revi0", 2000) }).result["status"]);
+            println!("garbage init: {}", run.step(&Op::Deploy { from_pkscript: PKSCRIPTS[1].into(), data: Hx(init_garbage()), enc: Enc::Hex, tail: t_tail(ts + 1, "garbi0", 2000) }).result["status"]);
+            let raw = sign_legacy(0, 0, None, multitool_init(), CHAIN_ID);
+            let r = run.step(&Op::Transact { raw_tx: Hx(raw), enc: Enc::Hex, tail: t_tail(ts + 1, "sgni0", 2000) }).result.clone();
+            println!("signed deploy: status {} from {} expected signer {}", r[0]["status"], r[0]["from"], hex::encode(signer_address(0)));
+        }
+        "verify" => {
+            let name = arg(args, "--name").unwrap_or_default();
+            let then: Vec<String> = arg(args, "--then").map(|s| s.split(',').map(|x| x.to_string()).collect()).unwrap_or_default();
+            let (_, _, h) = corpus().into_iter().find(|c| c.0 == name).ok_or("no such corpus entry")?;
+            let mut run = Run::new();
+            let mut all = h.clone();
+            for t in &then {
+                let ts = 1_700_009_000;
+                all.push(match t.split(':').collect::<Vec<_>>().as_slice() {
+                    ["reorg", n] => Op::Reorg(n.parse()?),
+                    ["mine", n] => Op::Mine { n: n.parse()?, ts },
+                    ["fin", n] => Op::Finalise { ts: n.parse()?, hash: Hx::zero32(), tx_count: Idx::Abs(0) },
+                    ["deposit"] => Op::Deposit { to_pkscript: PKSCRIPTS[0].into(), ticker: "ordi".into(), amount: "0x64".into(), ts, hash: Hx::zero32(), tx_idx: Idx::Auto, insc_id: "vdep".into() },
+                    ["finauto"] => Op::Finalise { ts, hash: Hx::zero32(), tx_count: Idx::Auto },
+                    ["balance"] => Op::Balance { pkscript: PKSCRIPTS[0].into(), ticker: "ordi".into() },
+                    ["emptyb64"] => Op::Deploy { from_pkscript: PKSCRIPTS[0].into(), data: Hx(vec![]), enc: Enc::EmptyBase64, tail: t_tail(ts, "eb64", 100) },
+                    ["blocknumber"] => Op::Query { method: "eth_blockNumber".into(), params: json!([]) },
+                    ["block0"] => Op::Query { method: "eth_getBlockByNumber".into(), params: json!(["0x0", false]) },
+                    _ => return Err(format!("unknown step {}", t).into()),
+                });
+            }
+            for op in &all {
+                let out = run.step(op).clone();
+                let r = out.result.to_string();
+                println!("{:<10} {:<70} {}", op.kind(), match &out.status { Status::Panic(m) => format!("PANIC {}", m), s => s.class() }, &r[..r.len().min(160)]);
+                if args.iter().any(|a| a == "--events") { for e in out.events.iter().filter(|e| is_mutation(e)) { println!("      {}", ev_string(e)); } }
+            }
+        }
+        _ => return Err("simprobe --what gen|corpus|verify|c01|c03|c05|c06|c10".into()),
     }
     Ok(())
 }
